@@ -111,6 +111,9 @@ class C14(Check):
                     others.append(env.gen_item(src))
             op["other"] = others
             op["other_kind"] = src.choice(["keyed", "keyed", "set"]) if not getattr(env, "unhashable", False) else "keyed"
+            if getattr(env, "unhashable", False) and name != "inplace" and src.chance(0.2):
+                # (a built-in set cannot hold unhashable items, but the empty set is a perfectly good operand)
+                op["other"], op["other_kind"] = [], "set"
             if name == "inplace" and bad and others:
                 op["other"][src.randint(0, len(others) - 1)] = env.gen_bad_item(src)
                 op["other_kind"] = "list"
@@ -517,8 +520,8 @@ class C14(Check):
             if env.enforce and collide_unequal and w == "ior":
                 # |= adds the operand's items: an unequal item under an existing key must be refused
                 ctx.violate(dict(sig, invariant="must_raise", want="ValueError", other=op["other_kind"]), {"op": op}, idx)
-            if collide_unequal and (env.enforce or op["other_kind"] == "set"):
-                m2 = self.resync(env, s)  # semantics of unequal items under a shared key are not pinned down here
+            if collide_unequal and env.enforce:
+                m2 = self.resync(env, s)  # (which of the unequal items under a shared key wins is not pinned down here)
                 return m2 if m2 is not None else m
             want = {"ior": ks | ko, "iand": ks & ko, "isub": ks - ko, "ixor": ks ^ ko}[w]
             m2 = self.resync(env, s)
@@ -526,7 +529,7 @@ class C14(Check):
                 ctx.violate(dict(sig, invariant="coherent_after_op"), {"op": op}, idx)
                 return m
             if set(map(repr, m2.keys())) != want:
-                ctx.violate(dict(sig, invariant="algebra_on_keys", other=op["other_kind"]),
+                ctx.violate(dict(sig, invariant="algebra_on_keys", other=op["other_kind"], collide=bool(collide_unequal)),
                             {"op": op, "got": sorted(map(repr, m2.keys())), "want": sorted(want)}, idx)
             return m2
         if unkeyable:
@@ -542,9 +545,8 @@ class C14(Check):
                 # the union would hold two unequal items under one key: building it adds one onto the other
                 ctx.violate(dict(sig, invariant="must_raise", want="ValueError", other=op["other_kind"]), {"op": op}, idx)
             return m
-        if collide_unequal and (op["other_kind"] == "set" or w in ("eq", "ne")):
-            # a built-in set identifies items by equality, and == between KeyedSets compares the mapping: with
-            # an unequal item under a shared key "algebra on keys" is not pinned down by the statement
+        if collide_unequal and w in ("eq", "ne"):
+            # == compares the mappings (key AND item): two sets holding unequal items under one key are not equal
             return m
         if name == "binop":
             want = {"or": ks | ko, "and": ks & ko, "sub": ks - ko, "xor": ks ^ ko}[w]
@@ -555,7 +557,7 @@ class C14(Check):
                 ctx.violate(dict(sig, invariant="result_readable"), {"op": op, "msg": str(e)[:100]}, idx)
                 return m
             if set(gk) != want or len(gk) != len(set(gk)):
-                ctx.violate(dict(sig, invariant="algebra_on_keys", other=op["other_kind"]),
+                ctx.violate(dict(sig, invariant="algebra_on_keys", other=op["other_kind"], collide=bool(collide_unequal)),
                             {"op": op, "got": sorted(gk), "want": sorted(want),
                              "self": sorted(ks), "other_keys": sorted(ko)}, idx)
             elif type(got).__name__ != "KeyedSet":
@@ -564,7 +566,7 @@ class C14(Check):
             want = {"le": ks <= ko, "lt": ks < ko, "ge": ks >= ko, "gt": ks > ko, "eq": ks == ko, "ne": ks != ko,
                     "isdisjoint": not (ks & ko)}[w]
             if got is not want:
-                ctx.violate(dict(sig, invariant="comparison_on_keys", other=op["other_kind"]),
+                ctx.violate(dict(sig, invariant="comparison_on_keys", other=op["other_kind"], collide=bool(collide_unequal)),
                             {"op": op, "got": got, "want": want, "self": sorted(ks), "other_keys": sorted(ko)}, idx)
         return m
 
